@@ -610,3 +610,177 @@ pub fn c11_search(seed: u64, n: u64) -> i32 {
     println!("SEARCH tried={} found=0", n);
     0
 }
+
+// ---------------------------------------------------------------------------------------------
+// C05 / C09 / C10 oracles: range notation
+use espada::hand_range::HandRangeToken;
+
+fn rc(i: usize) -> char { RANK_CH[i] }
+
+/// first-principles expansion of a well-formed token text (without weight): the combos it denotes
+fn denoted(kind: usize, a: usize, b: usize, e: usize, s1: usize, s2: usize) -> (String, Vec<CardPair>) {
+    let pocket = |r: usize| combos_fp(RankPair::Pocket(RANKS[r]));
+    let suited = |h: usize, k: usize| combos_fp(RankPair::Suited(RANKS[h], RANKS[k]));
+    let ofsuit = |h: usize, k: usize| combos_fp(RankPair::Ofsuit(RANKS[h], RANKS[k]));
+    match kind {
+        0 => (format!("{}{}", rc(a), rc(a)), pocket(a)),
+        1 => (format!("{}{}+", rc(a), rc(a)), (0..=a).flat_map(|r| pocket(r)).collect()),
+        2 => (format!("{}{}-{}{}", rc(a), rc(a), rc(b), rc(b)), (a..=b).flat_map(|r| pocket(r)).collect()),           // a <= b
+        3 => (format!("{}{}s", rc(a), rc(b)), suited(a, b)),                                                        // a < b
+        4 => (format!("{}{}o", rc(a), rc(b)), ofsuit(a, b)),
+        5 => (format!("{}{}s+", rc(a), rc(b)), ((a + 1)..=b).flat_map(|k| suited(a, k)).collect()),
+        6 => (format!("{}{}o+", rc(a), rc(b)), ((a + 1)..=b).flat_map(|k| ofsuit(a, k)).collect()),
+        7 => (format!("{}{}s-{}{}s", rc(a), rc(b), rc(a), rc(e)), (b..=e).flat_map(|k| suited(a, k)).collect()),     // a < b < e
+        8 => (format!("{}{}o-{}{}o", rc(a), rc(b), rc(a), rc(e)), (b..=e).flat_map(|k| ofsuit(a, k)).collect()),
+        _ => (format!("{}{}{}{}", rc(a), SUIT_CH[s1], rc(b), SUIT_CH[s2]), vec![CardPair::new(Card::new(RANKS[a], SUITS[s1]), Card::new(RANKS[b], SUITS[s2]))]),
+    }
+}
+
+fn all_token_shapes() -> Vec<(String, Vec<CardPair>)> {
+    let mut v = vec![];
+    for a in 0..13 { v.push(denoted(0, a, 0, 0, 0, 0)); v.push(denoted(1, a, 0, 0, 0, 0)); for b in a..13 { v.push(denoted(2, a, b, 0, 0, 0)); } }
+    for a in 0..13 { for b in (a + 1)..13 {
+        for k in 3..=6 { v.push(denoted(k, a, b, 0, 0, 0)); }
+        for e in (b + 1)..13 { v.push(denoted(7, a, b, e, 0, 0)); v.push(denoted(8, a, b, e, 0, 0)); }
+    } }
+    for a in 0..13 { for s1 in 0..4 { for b in 0..13 { for s2 in 0..4 { if (a, s1) != (b, s2) { v.push(denoted(9, a, b, 0, s1, s2)); } } } } }
+    v
+}
+
+fn same_set(got: &Vec<(CardPair, f32)>, want: &Vec<CardPair>, w: f32) -> Result<(), String> {
+    let mut g: Vec<String> = got.iter().map(|(p, x)| format!("{}:{}", p, x)).collect();
+    let mut e: Vec<String> = want.iter().map(|p| format!("{}:{}", p, w)).collect();
+    g.sort(); g.dedup(); e.sort(); e.dedup();
+    if g != e { return Err(format!("expands to {} entries {:?}..., expected {} entries {:?}...", g.len(), &g[..g.len().min(3)], e.len(), &e[..e.len().min(3)])); }
+    if got.len() != g.len() { return Err("expansion lists a combo twice".to_string()); }
+    Ok(())
+}
+
+pub fn c05_search(seed: u64, n: u64) -> i32 {
+    std::panic::set_hook(Box::new(|_| {}));
+    let shapes = all_token_shapes();
+    let weights: [(&str, f32); 5] = [("", 1.0), (":1", 1.0), (":0", 0.0), (":0.5", 0.5), (":0.25", 0.25)];
+    let mut tried = 0u64;
+    for (text, want) in shapes.iter() {
+        for (wt, w) in weights.iter() {
+            tried += 1;
+            let t = format!("{}{}", text, wt);
+            let r = std::panic::catch_unwind(|| -> Result<(), String> {
+                let tok = t.parse::<HandRangeToken>().map_err(|_| "rejected as a token".to_string())?;
+                let got: Vec<(CardPair, f32)> = tok.into_iter().collect();
+                same_set(&got, want, *w)?;
+                let range: HandRange = t.parse().map_err(|_| "rejected as a range".to_string())?;
+                let got: Vec<(CardPair, f32)> = range.card_pairs().iter().map(|(a, b)| (*a, *b)).collect();
+                same_set(&got, want, *w)
+            });
+            let r = match r { Ok(x) => x, Err(_) => Err("panicked".to_string()) };
+            if let Err(e) = r { println!("WITNESS c05 {} :: token {:?} {}", t, t, e); println!("SEARCH tried={} found=1", tried); return 1; }
+        }
+    }
+    // list level: later tokens overwrite, spaces ignored, empty string is the empty range
+    let mut rng = Rng(seed ^ 0xC05);
+    if "".parse::<HandRange>().map(|r| r.card_pairs().len()).unwrap_or(99) != 0 { println!("WITNESS c05 - :: the empty string is not the empty range"); return 1; }
+    for _ in 0..n {
+        tried += 1;
+        let k = 1 + rng.below(4) as usize;
+        let mut text = String::new();
+        let mut want: std::collections::HashMap<String, f32> = std::collections::HashMap::new();
+        for i in 0..k {
+            let (t, combos) = &shapes[rng.below(shapes.len() as u64) as usize];
+            let (wt, w) = weights[rng.below(5) as usize];
+            if i > 0 { text.push_str(if rng.below(2) == 0 { "," } else { " , " }); }
+            text.push_str(t); text.push_str(wt);
+            for c in combos { want.insert(c.to_string(), w); }
+        }
+        let r = std::panic::catch_unwind(|| text.parse::<HandRange>());
+        let ok = match r {
+            Ok(Ok(range)) => {
+                let got: std::collections::HashMap<String, f32> = range.card_pairs().iter().map(|(a, b)| (a.to_string(), *b)).collect();
+                if got == want { Ok(()) } else { Err(format!("parses to {} combos, expected {} (later token's weight applies)", got.len(), want.len())) }
+            }
+            Ok(Err(_)) => Err("rejected".to_string()),
+            Err(_) => Err("panicked".to_string()),
+        };
+        if let Err(e) = ok { println!("WITNESS c05 {} :: range {:?} {}", text.replace(' ', "_"), text, e); println!("SEARCH tried={} found=1", tried); return 1; }
+    }
+    println!("SEARCH tried={} found=0", tried);
+    0
+}
+
+fn gen_strings(rng: &mut Rng, n: u64) -> Vec<String> {
+    let alpha: Vec<char> = "AKQ92shdco+-:.015 ,é".chars().collect();
+    let mut v = vec![];
+    // every string up to 3 characters over the alphabet
+    for a in 0..=alpha.len() { for b in 0..=alpha.len() { for c in 0..=alpha.len() {
+        let mut s = String::new();
+        if a < alpha.len() { s.push(alpha[a]); } if b < alpha.len() { s.push(alpha[b]); } if c < alpha.len() { s.push(alpha[c]); }
+        v.push(s);
+    } } }
+    // token-shaped strings with arbitrary (also reversed / degenerate) ranks and odd weights
+    let ws = ["", ":1", ":0", ":0.5", ":1.5", ":1.0000001", ":2", ":.5", ":1.", ":0.999999999999", ":-1", ":1e3", ":inf", ":nan"];
+    for _ in 0..n {
+        let r = |rng: &mut Rng| RANK_CH[rng.below(13) as usize];
+        let s = |rng: &mut Rng| SUIT_CH[rng.below(4) as usize];
+        let so = |rng: &mut Rng| if rng.below(2) == 0 { 's' } else { 'o' };
+        let (a, b, c, d) = (r(rng), r(rng), r(rng), r(rng));
+        let base = match rng.below(12) {
+            9 => format!("{}{}", a, a), 10 => format!("{}{}+", a, a), 11 => format!("{}{}-{}{}", a, a, c, c),
+            0 => format!("{}{}", a, b), 1 => format!("{}{}+", a, b), 2 => format!("{}{}-{}{}", a, b, c, d),
+            3 => format!("{}{}{}", a, b, so(rng)), 4 => format!("{}{}{}+", a, b, so(rng)),
+            5 => { let x = so(rng); format!("{}{}{}-{}{}{}", a, b, x, c, d, so(rng)) }
+            6 => format!("{}{}{}{}", a, s(rng), b, s(rng)), 7 => format!("{}{}{}{}", a, s(rng), a, s(rng)),
+            _ => format!("{}é{}{}", a, b, s(rng)),
+        };
+        v.push(format!("{}{}", base, ws[rng.below(ws.len() as u64) as usize]));
+    }
+    v
+}
+
+/// C09: parse as everything, then use every value obtained; C10: every combo has two cards and a weight in [0,1]
+pub fn parse_search(seed: u64, n: u64, mode: &str) -> i32 {
+    std::panic::set_hook(Box::new(|_| {}));
+    let mut rng = Rng(seed ^ 0xC09);
+    let strings = gen_strings(&mut rng, n);
+    let flop = [card(0), card(5), card(10)];
+    let mut tried = 0u64;
+    for s in strings.iter() {
+        tried += 1;
+        let s2 = s.clone();
+        let r = std::panic::catch_unwind(move || -> Result<(), String> {
+            let _ = s2.parse::<Rank>(); let _ = s2.parse::<Suit>();
+            if let Ok(c) = s2.parse::<Card>() { let _ = c.to_string(); let _ = u64::from(c); }
+            if let Ok(p) = s2.parse::<CardPair>() { let _ = p.to_string(); let _ = (p[0], p[1]); }
+            let check = |p: &CardPair, w: f32, what: &str| -> Result<(), String> {
+                if p[0] == p[1] { return Err(format!("{} holds the combo {} made of one card twice", what, p)); }
+                if !(w >= 0.0 && w <= 1.0) { return Err(format!("{} carries weight {}", what, w)); }
+                Ok(())
+            };
+            if let Ok(t) = s2.parse::<HandRangeToken>() {
+                let _ = t.to_string();
+                for (p, w) in t { check(&p, w, "token")?; }
+            }
+            if let Ok(range) = s2.parse::<HandRange>() {
+                let _ = range.to_string();
+                let _ = range.rank_pairs(); let _ = range.orphan_card_pairs();
+                for (p, w) in range.card_pairs().iter() { check(p, *w, "range")?; }
+                if !range.card_pairs().is_empty() && range.card_pairs().len() <= 30 {
+                    let board = [Some(flop[0]), Some(flop[1]), Some(flop[2]), None, None];
+                    let mut ev = FlopExhaustiveEvaluator::new(&board, &vec![range.clone(), range.clone()]);
+                    ev.scope(0, 1, 0, 3);
+                    for sd in ev {
+                        if !(sd.probability() >= 0.0 && sd.probability() <= 1.0) { return Err(format!("showdown probability {}", sd.probability())); }
+                        let mut cs: Vec<Card> = sd.board().to_vec();
+                        for p in sd.players() { cs.push(p.hole_cards()[0]); cs.push(p.hole_cards()[1]); }
+                        let l = cs.len(); cs.sort(); cs.dedup();
+                        if cs.len() != l { return Err("a showdown holds the same card twice".to_string()); }
+                    }
+                }
+            }
+            Ok(())
+        });
+        let res = match r { Ok(Ok(())) => None, Ok(Err(e)) => if mode == "c10" { Some(e) } else { None }, Err(_) => if mode == "c09" { Some("panicked".to_string()) } else { None } };
+        if let Some(e) = res { println!("WITNESS parse {} {} :: {:?} {}", mode, s.replace(' ', "_"), s, e); println!("SEARCH tried={} found=1", tried); return 1; }
+    }
+    println!("SEARCH tried={} found=0", tried);
+    0
+}
